@@ -157,7 +157,7 @@ Section Cmd.
     (ans <> 7 -> h_cf h' = h_cf h /\ h_rg h' = h_rg h) /\
     (ans = 7 -> exists d pw m,
         h_cf h' = set_cfg (h_cf h) d pw /\ h_rg h' = region_mask_set (h_rg h) m /\
-        (N.shiftr (nthN p 0) 4 = 15 /\ d = cf_data_rate (h_cf h) \/ N.shiftr (nthN p 0) 4 <> 15 /\ d = N.shiftr (nthN p 0) 4 /\ get_datarate (rg_id (h_rg h)) d <> None) /\
+        (N.shiftr (nthN p 0) 4 = 15 /\ d = cf_data_rate (h_cf h) \/ N.shiftr (nthN p 0) 4 <> 15 /\ d = N.shiftr (nthN p 0) 4 /\ uplink_dr (h_rg h) d <> None) /\
         (N.land (nthN p 0) 15 = 15 /\ pw = cf_tx_power (h_cf h) \/
          N.land (nthN p 0) 15 <> 15 /\ pw = tx_power_adjust (rg_id (h_rg h)) (N.land (nthN p 0) 15) /\ pw <> None)) /\
     h_nadr h' = O /\ h_known h' = true.
@@ -168,7 +168,7 @@ Section Cmd.
     destruct mo as [m'|].
     - (* known ChMaskCntl *)
       remember (N.shiftr (nthN p 0) 4) as drf eqn:Hdrf. remember (N.land (nthN p 0) 15) as pwf eqn:Hpwf.
-      remember (if drf =? 15 then Some (cf_data_rate (h_cf h)) else match get_datarate (rg_id (h_rg h)) drf with Some _ => Some drf | None => None end) as dr eqn:Hdr.
+      remember (if drf =? 15 then Some (cf_data_rate (h_cf h)) else match uplink_dr (h_rg h) drf with Some _ => Some drf | None => None end) as dr eqn:Hdr.
       remember (if pwf =? 15 then Some (cf_tx_power (h_cf h)) else match tx_power_adjust (rg_id (h_rg h)) pwf with Some x => Some (Some x) | None => None end) as pw eqn:Hpw.
       destruct (region_mask_validate (h_rg h) m' dr) as [vok| |]; try (intros H; discriminate).
       destruct (h_known h && vok) eqn:Ek; destruct dr as [d|]; destruct pw as [pwv|];
@@ -181,14 +181,14 @@ Section Cmd.
       split.
       + destruct (drf =? 15) eqn:E15; [left | right].
         * apply N.eqb_eq in E15. injection Hdr as ->. auto.
-        * apply N.eqb_neq in E15. destruct (get_datarate (rg_id (h_rg h)) drf) eqn:Eg; [|discriminate].
+        * apply N.eqb_neq in E15. destruct (uplink_dr (h_rg h) drf) eqn:Eg; [|discriminate].
           injection Hdr as ->. repeat split; auto. rewrite Eg. discriminate.
       + destruct (pwf =? 15) eqn:E15; [left | right].
         * apply N.eqb_eq in E15. injection Hpw as ->. auto.
         * apply N.eqb_neq in E15. destruct (tx_power_adjust (rg_id (h_rg h)) pwf) eqn:Eg; [|discriminate].
           injection Hpw as ->. repeat split; auto. discriminate.
     - (* RFU ChMaskCntl: never a channel-mask ACK *)
-      remember (if N.shiftr (nthN p 0) 4 =? 15 then Some (cf_data_rate (h_cf h)) else match get_datarate (rg_id (h_rg h)) (N.shiftr (nthN p 0) 4) with Some _ => Some (N.shiftr (nthN p 0) 4) | None => None end) as dr eqn:Hdr.
+      remember (if N.shiftr (nthN p 0) 4 =? 15 then Some (cf_data_rate (h_cf h)) else match uplink_dr (h_rg h) (N.shiftr (nthN p 0) 4) with Some _ => Some (N.shiftr (nthN p 0) 4) | None => None end) as dr eqn:Hdr.
       remember (if N.land (nthN p 0) 15 =? 15 then Some (cf_tx_power (h_cf h)) else match tx_power_adjust (rg_id (h_rg h)) (N.land (nthN p 0) 15) with Some x => Some (Some x) | None => None end) as pw eqn:Hpw.
       destruct (region_mask_validate (h_rg h) (h_mask h) dr) as [vok| |]; try (intros H; discriminate).
       cbn [andb].
